@@ -141,7 +141,6 @@ import (
 	"bytes"
 	"fmt"
 	"go/ast"
-	"go/build"
 	"go/importer"
 	"go/parser"
 	"go/printer"
@@ -151,6 +150,7 @@ import (
 	"path/filepath"
 	"sort"
 	"strings"
+	"veriftools/internal/srcset"
 
 	"veriftools/coqfmt"
 )
@@ -932,24 +932,12 @@ func (a *analysis) isHeader(e ast.Expr) bool {
 	return a.derived(e)
 }
 
-// matchFile: is this file part of the package as the go tool builds it here (GOOS, GOARCH,
-// release tags, file name suffixes, //go:build and +build lines; no extra tags, so files
-// guarded by the `verif` tag are left out)?  go/build decides, the same way `go build` does.
-func matchFile(path string) bool {
-	ok, err := build.Default.MatchFile(filepath.Dir(path), filepath.Base(path))
-	if err != nil {
-		die("%s: %v", path, err)
-	}
-	return ok
-}
-
 func main() {
 	if len(os.Args) < 2 {
 		die("usage: clone2coq <repo>")
 	}
 	repo := os.Args[1]
-	dir := filepath.Join(repo, "jen")
-	names, err := filepath.Glob(filepath.Join(dir, "*.go"))
+	names, err := srcset.Files(repo)
 	if err != nil {
 		die("%v", err)
 	}
@@ -964,9 +952,7 @@ func main() {
 		if err != nil {
 			die("%v", err)
 		}
-		if matchFile(n) {
-			files = append(files, f)
-		}
+		files = append(files, f)
 	}
 	info := &types.Info{
 		Types:      map[ast.Expr]types.TypeAndValue{},
